@@ -66,7 +66,7 @@ func c10Routes(proto string) []routeSpec {
 }
 
 func c10Engine(c *lab.Ctx) {
-	c.Rule("running MOSN with counted breaker resources; histories of mixed outcomes at concurrency 8 x 3 protocols; continuous sign sampling, conservation at quiescence, a go-away connection closed with three requests in flight on it, bursts of 12 simultaneous admissions at max_requests=3, 5xx answers that arrive 0..20 ms before the global timeout of a retrying route, a per-try timer parked at its hook point and released while the next attempt is being set up (HTTP/1 pool), threshold trip tests (max_requests=3, max_retries=1); distinct = (protocol, route, plan class, outcome) + book signatures")
+	c.Rule("running MOSN with counted breaker resources; histories of mixed outcomes at concurrency 8 x 3 protocols; continuous sign sampling, conservation at quiescence, a go-away connection closed with three requests in flight on it, bursts of 12 simultaneous admissions at max_requests=3, 5xx answers that arrive 0..20 ms before the global timeout of a retrying route, a per-try timer parked at its hook point and released while the next attempt is being set up (HTTP/1 pool), HTTP/2 requests given up by a raw client between HEADERS and END_STREAM (RST_STREAM or connection close), threshold trip tests (max_requests=3, max_retries=1); distinct = (protocol, route, plan class, outcome) + book signatures")
 	e, err := newEngine(c, engineProtos, c10Routes, c10ClusterExtra, nil)
 	if err != nil {
 		c.Require("mosn started", false, err.Error())
@@ -104,9 +104,11 @@ func c10Engine(c *lab.Ctx) {
 			time.Sleep(2 * time.Millisecond)
 		}
 	}()
-	if os.Getenv("VERIF_C10_ONLY") == "ptry" { // development switch: only the steered per-try case
+	if os.Getenv("VERIF_C10_ONLY") != "" { // development switch: only the steered per-try case and the partial HTTP/2 requests
 		c10PerTryDuringSetup(c, e, "Http1")
 		c10Conservation(c, e, clusters, "after per-try timeouts during the set-up of a retry Http1", false)
+		c10H2Partial(c, e)
+		c10Conservation(c, e, clusters, "after HTTP/2 requests given up before their end", false)
 		atomic.StoreInt32(&stop, 1)
 		sg.Wait()
 		return
@@ -196,6 +198,9 @@ func c10Engine(c *lab.Ctx) {
 	// frame the window)
 	c10PerTryDuringSetup(c, e, "Http1")
 	c10Conservation(c, e, clusters, "after per-try timeouts during the set-up of a retry Http1", false)
+	// (2d'') HTTP/2 requests given up by the client between their HEADERS and their end
+	c10H2Partial(c, e)
+	c10Conservation(c, e, clusters, "after HTTP/2 requests given up before their end", false)
 	// (2e) a retry that finds no healthy host any more: the only host of the cluster is marked unhealthy while the first attempt is
 	// in flight, then the upstream closes the connection without answering
 	for _, proto := range engineProtos {
